@@ -11,5 +11,7 @@ MCData == { [x |-> << <<3, 5>> >>, y |-> <<1>>],
 MCGrids3 == { <<0, 4, 8>>, <<0, 2, 4, 6, 8>> }
 MCData3 == { [x |-> << <<3, 5, 1>>, <<4, 4, 4>>, <<0, 8, 2>> >>, y |-> <<1, 1, 1>>],
              [x |-> << <<2, 2, 6>>, <<6, 3, 3>>, <<7, 1, 4>>, <<4, 6, 8>> >>, y |-> <<1, -1, 1, -1>>] }
+\* three dimensions, anisotropic: uniform grids of levels 1-3, bounded by MAXPTS (e.g. levels (2,3,1): 21 inner points)
+MCGrids3b == { <<0, 4, 8>>, <<0, 2, 4, 6, 8>>, <<0, 1, 2, 3, 4, 5, 6, 7, 8>> }
 MCData1 == { [x |-> << <<3, 5>> >>, y |-> <<1>>] }
 ====
